@@ -237,7 +237,10 @@ func cmdCheck(args []string) {
 	kfUsed := map[int]bool{}
 	for _, o := range all {
 		solverTime += o.Res.Time
-		if reason, ok := baseline[o.Name]; ok && o.Status != "discharged" {
+		if reason, ok := baseline[o.Name]; ok && o.Status == "undecided" {
+			// a listed slow obligation that ran out of solver budget (loaded machine): undecided in
+			// this run, never a violation; a refutation (sat) of the same obligation still is one
+			fmt.Printf("UNDECIDED: property=%s %s ran out of solver budget (%s)\n", *prop, o.Name, reason)
 			unchecked = append(unchecked, o.Name+": "+reason)
 			continue
 		}
